@@ -9,6 +9,7 @@ import Driver.OpsClap
 import Driver.OpsScope
 import Driver.OpsRenamePlan
 import Driver.OpsUndo
+import Driver.OpsPanic
 import Driver.OpsExec
 import Driver.OpsScan
 import Driver.OpsSignals
@@ -33,6 +34,7 @@ def handlers : List (List String → Option String) :=
   , OpsScope.dispatch
   , OpsRenamePlan.dispatch
   , OpsUndo.dispatch
+  , OpsPanic.dispatch
   , OpsExec.dispatch
   , OpsScan.dispatch
   , OpsSignals.dispatch
